@@ -227,7 +227,7 @@ class C12(Sim):
         return ops
 
     def cases(self, rng, run: int, tier: str) -> Iterator[dict]:
-        arm = ["unit", "unit", "partition", "faultenum", "unit"][run % 5]  # TODO engine
+        arm = ["unit", "engine", "partition", "faultenum", "engine"][run % 5]
         if arm == "engine":
             from sims import c12_engine
             yield from c12_engine.cases(rng, run, tier)
